@@ -226,6 +226,40 @@ Fixpoint evict_scan (victims : list Z) (placer : Z) (c : cell) (ev : list (Z * (
         end
   end.
 
+(* the rest of an iteration once the instance holds an identity and was not restored: schedule-once check,
+   feasibility tracker, Bucket.put from the top, eviction scan, and what happens when nothing worked *)
+Definition place_tail (rev_queue : list Z) (st : loopst) (aname : Z) (c4 : cell)
+           (ev1 : list (Z * (Z * option Z))) (restore : option (Z * option Z)) : loopst :=
+  match get_app aname (c_apps c4) with
+  | None => st
+  | Some a4 =>
+      if a_once a4 && a_evicted a4 then st <| l_cell := release_identity c4 aname |> <| l_evicted := ev1 |>
+      else if negb (tr_feasible (l_tracker st) a4)
+      then st <| l_cell := release_identity c4 aname |> <| l_evicted := ev1 |>
+      else
+        let '(c5, ok) := cell_put c4 aname in
+        let '(c6, ev2) := if ok then (c5, ev1) else evict_scan rev_queue aname c5 ev1 in
+        let placed := match get_app aname (c_apps c6) with
+                      | Some a6 => match a_server a6 with Some _ => true | None => false end
+                      | None => false
+                      end in
+        if placed then st <| l_cell := c6 |> <| l_evicted := ev2 |>
+        else
+          match restore with
+          | Some (n, ex) =>
+              let '(c7, _) := srv_restore c6 n aname ex in
+              st <| l_cell := c_upd_app aname (fun x => x <| a_renew := true |>) c7 |>
+                 <| l_evicted := ev2 |>
+          | None =>
+              let c7 := release_identity c6 aname in
+              let tr := match get_app aname (c_apps c7) with
+                        | Some a7 => tr_adjust (l_tracker st) a7
+                        | None => l_tracker st
+                        end in
+              st <| l_cell := c7 |> <| l_evicted := ev2 |> <| l_tracker := tr |>
+          end
+  end.
+
 Definition place_one (rev_queue : list Z) (st : loopst) (aname : Z) : loopst :=
   let c := l_cell st in
   match get_app aname (c_apps c) with
@@ -269,36 +303,7 @@ Definition place_one (rev_queue : list Z) (st : loopst) (aname : Z) : loopst :=
                     | None => (c3, false, l_evicted st)
                     end in
                   if restored then st <| l_cell := c4 |> <| l_evicted := ev1 |>
-                  else
-                    match get_app aname (c_apps c4) with
-                    | None => st
-                    | Some a4 =>
-                        if a_once a4 && a_evicted a4 then st <| l_cell := release_identity c4 aname |> <| l_evicted := ev1 |>
-                        else if negb (tr_feasible (l_tracker st) a4)
-                        then st <| l_cell := release_identity c4 aname |> <| l_evicted := ev1 |>
-                        else
-                          let '(c5, ok) := cell_put c4 aname in
-                          let '(c6, ev2) := if ok then (c5, ev1) else evict_scan rev_queue aname c5 ev1 in
-                          let placed := match get_app aname (c_apps c6) with
-                                        | Some a6 => match a_server a6 with Some _ => true | None => false end
-                                        | None => false
-                                        end in
-                          if placed then st <| l_cell := c6 |> <| l_evicted := ev2 |>
-                          else
-                            match restore with
-                            | Some (n, ex) =>
-                                let '(c7, _) := srv_restore c6 n aname ex in
-                                st <| l_cell := c_upd_app aname (fun x => x <| a_renew := true |>) c7 |>
-                                   <| l_evicted := ev2 |>
-                            | None =>
-                                let c7 := release_identity c6 aname in
-                                let tr := match get_app aname (c_apps c7) with
-                                          | Some a7 => tr_adjust (l_tracker st) a7
-                                          | None => l_tracker st
-                                          end in
-                                st <| l_cell := c7 |> <| l_evicted := ev2 |> <| l_tracker := tr |>
-                            end
-                    end
+                  else place_tail rev_queue st aname c4 ev1 restore
             end
         end
   end.
